@@ -68,6 +68,12 @@ impl Mons {
         for f in obs.findings {
             if let Some(m) = self.m.get_mut(f.prop) {
                 m.violation(&f.sig, json!({"case": case, "finding": f.detail}));
+            } else if f.sig.contains("-failed-on-valid-history") || f.sig.contains("flush-failed") {
+                // The runtime refused a valid history: no property served by this workload can
+                // be observed any further, so every active monitor reports it.
+                for m in self.m.values_mut() {
+                    m.violation(&f.sig, json!({"case": case, "finding": f.detail}));
+                }
             }
         }
         for (k, v) in obs.counts {
@@ -132,7 +138,11 @@ fn main() {
             let mut w = mons.worker();
             let mut i = shard as u64;
             while i < n {
-                let cs = case_seed(args.seed, mode_tag(mode), i);
+                let mut cs = case_seed(args.seed, mode_tag(mode), i);
+                if mode == "large" || mode == "lookup_long" {
+                    // the low bits select the kind of large case: cover every kind
+                    cs = (cs & !7) | (i & 7);
+                }
                 run_case(mode, cs, &args, &mut w);
                 i += total as u64;
             }
@@ -182,6 +192,9 @@ fn mode_tag(mode: &str) -> u64 {
 
 pub fn run_case(mode: &str, cs: u64, args: &Args, mons: &mut Mons) {
     let case = json!({"mode": mode, "case_seed": cs});
+    if std::env::var("VERIF_TRACE").is_ok() {
+        eprintln!("case {mode} {cs}");
+    }
     let r = catch(|| match mode {
         "hist" => modes::hist::case(cs, false, args, mons, &case),
         "pf" => modes::hist::case(cs, true, args, mons, &case),
